@@ -26,6 +26,7 @@ CONSTANTS MinCols, MaxCols,
           WithNull, WithWrong,   \* offer NULL / wrong-type values
           MaxBad,      \* at most this many refusable cells per row or SET list
           WithUpd,     \* UpdateAll enabled
+          WithGuard,   \* a refused row is also offered as the second row of a two-row INSERT behind a row the table accepts (guard |-> TRUE)
           WithUnknown, \* statements naming a column the table does not have (x |-> TRUE in the scenario: column "zz" is added to the list)
                       \* or naming their first column twice (y |-> TRUE)
           MaxMut,      \* Put / UpdateAll attempts per scenario
@@ -98,11 +99,15 @@ MCInit == /\ \E s \in Schemas : VSInit(s)
 
 Strip(v) == [t |-> v.t, cls |-> v.cls, len |-> v.len]
 
-DoPut == \E raw \in Prod(schema, Len(schema), {}) :
+\* the first row of a guarded INSERT: small valid values, whatever the classes of the configuration are
+GuardRow(s) == [i \in 1..Len(s) |-> CASE s[i] = "INT" -> IV("1") [] s[i] = "BIGINT" -> IV("1") [] s[i] = "BOOLEAN" -> BV("true") [] OTHER -> SV("l1", 1)]
+
+DoPut == \E raw \in Prod(schema, Len(schema), {}) : \E guarded \in (IF WithGuard THEN BOOLEAN ELSE {FALSE}) :
            /\ RawOK(schema, raw)
            /\ LET row == Resolved(schema, raw) IN
-              /\ Put(row)
-              /\ lastmut' = <<[a |-> "put", k |-> nmut', row |-> [i \in 1..Len(row) |-> Strip(row[i])], ok |-> ret'.ok]>>
+              /\ guarded => ~Accept(schema, row)            \* only where the statement must be refused (two accepted rows are two Puts)
+              /\ IF guarded THEN PutTwo(GuardRow(schema), row) ELSE Put(row)
+              /\ lastmut' = <<[a |-> "put", k |-> nmut', row |-> [i \in 1..Len(row) |-> Strip(row[i])], ok |-> ret'.ok, guard |-> guarded]>>
               /\ hist' = Append(hist, lastmut'[1])
 
 \* SET list: some columns keep their value; a fill string is sized against the first row
